@@ -1000,6 +1000,13 @@ def run(ctx):
     f1 = ctx.soft(rule_F1)
     ctx.soft(rule_F2, f1)
     ctx.soft(rule_F3)
+    # the readers read the file they are pointed at, every time: a memoised reader keyed on the path summarises a
+    # trace that has since been truncated or rewritten from memory (same rule object as C14.K1, clause (a))
+    from ..formula import imported
+    from . import C14
+
+    ctx._own_rules = set(ctx.rule_min)
+    imported(ctx, C14.rule_K1)
 
 
 # --------------------------------------------------------------------------- self-test catalogue
@@ -1011,6 +1018,9 @@ _MAP_OLD = "    with gzip.GzipFile(in_file, \"rb\") as fh:\n        results = pi
 _CONS_OLD = "    with gzip.GzipFile(in_file, \"rb\") as fh:\n        results = pickle.load(fh)\n\n    data = results[0][\"data\"]\n\n    trees = []\n"
 _TOP_OLD = "    with gzip.GzipFile(in_file, \"rb\") as fh:\n        results = pickle.load(fh)\n\n    print(\"\\nExtracting unique topologies from sample trace.\")\n"
 SELFTEST = [
+    {"name": "K1-memoised-trace-loader", "kind": "break", "rule": "K1", "edits": [
+        {"file": _PT, "old": "import gzip\nimport pickle\n", "new": "import gzip\nimport pickle\nfrom functools import lru_cache\n"},
+        {"file": _PT, "old": "def create_topology_dict_from_trace(trace):\n", "new": "@lru_cache(maxsize=1)\ndef _load_trace(in_file):\n    with gzip.GzipFile(in_file, \"rb\") as fh:\n        return pickle.load(fh)\n\n\ndef create_topology_dict_from_trace(trace):\n"}]},
     {"name": "F3-cluster-table-in-a-second-file", "kind": "break", "rule": "F3", "file": _PT, "old": _W_OLD, "new": _W_OLD + "    if cluster_file is not None:\n        pd.read_csv(cluster_file, sep=\"\\t\").to_csv(\"{}.clusters.tsv\".format(out_file), sep=\"\\t\")\n"},
     {"name": "F3-reader-takes-data-from-a-sidecar", "kind": "break", "rule": "F3", "file": _PT, "old": _MAP_OLD, "new": _MAP_OLD.replace("    data = results[0][\"data\"]\n", "    data = results[0][\"data\"]\n    if os.path.exists(in_file + \".clusters.tsv\"):\n        results[0][\"clusters\"] = pd.read_csv(in_file + \".clusters.tsv\", sep=\"\\t\")\n")},
     {"name": "benign-F3-path-through-str", "kind": "benign", "file": _PT, "old": _W_OLD, "new": "    target = str(out_file)\n    with gzip.GzipFile(target, mode=\"wb\") as fh:\n        pickle.dump(results, fh)\n"},
